@@ -353,17 +353,39 @@ def inst_kw(rng, types, mixed=False):
     return kw
 
 
-def gen_class(rng, name, libm, ksyms):
-    """source of one equation class (instance attributes ca, cb)"""
+CONV_CONSTS = ('nsw', 'nmax', 'cacc')   # constants the convergence hooks use
+
+
+def gen_class(rng, name, libm, ksyms, base=None, conv=False):
+    """source of one equation class (instance attributes ca, cb).
+
+    `base` = (name of an equation class generated before, its methods): the
+    class is a SUBCLASS that overrides only some of the methods and inherits
+    the rest (constructor, other hooks, reduce / converged) from its base.
+    `conv`: the class has a `reduce` that counts the sweeps of its destination
+    in the constant `nsw`, accumulates into the constant `cacc` and sets
+    `self.left` = sweeps still wanted (constant `nmax`), and a `converged`
+    that tests it."""
     attrs = list(ATTR_NAMES)
     g = ExprGen(rng, libm, ksyms, attrs)
-    meths = ['loop'] + [m for m in ('initialize', 'post_loop', 'initialize_pair')
-                        if rng.random() < (0.6 if m != 'initialize_pair' else 0.2)]
-    src = ['class %s(Equation):' % name,
-           '    def __init__(self, dest, sources, ca=1.0, cb=2.0):',
-           '        self.ca = ca',
-           '        self.cb = cb',
-           '        super(%s, self).__init__(dest, sources)' % name, '']
+    if base is None:
+        meths = ['loop'] + [m for m in ('initialize', 'post_loop', 'initialize_pair')
+                            if rng.random() < (0.6 if m != 'initialize_pair' else 0.2)]
+        src = ['class %s(Equation):' % name,
+               '    def __init__(self, dest, sources, ca=1.0, cb=2.0):',
+               '        self.ca = ca',
+               '        self.cb = cb']
+        if conv:
+            src.append('        self.left = 1.0')
+        src += ['        super(%s, self).__init__(dest, sources)' % name, '']
+    else:
+        # override a non-empty proper subset of what can be overridden: what is
+        # not listed here is INHERITED
+        cand = ['loop', 'initialize', 'post_loop']
+        meths = [m for m in cand if rng.random() < 0.45]
+        if not meths or set(meths) >= set(cand):
+            meths = [rng.choice(cand)]
+        src = ['class %s(%s):' % (name, base[0])]
     helpers = False
     for m in ('initialize', 'initialize_pair', 'loop', 'post_loop'):
         if m not in meths:
@@ -384,29 +406,58 @@ def gen_class(rng, name, libm, ksyms):
             # the random body drew
             body.append('d_q1[d_idx] += self.ca*s_m[s_idx] + self.cb')
             ctx['args'].update(['d_q1', 's_m'])
+        if m == 'post_loop' and (conv or base is not None) and rng.random() < 0.7:
+            # a constant of the destination WRITTEN by a transpiled method
+            body.append('d_cacc[0] += d_q1[d_idx]*%s' % rng.choice(['0.5', '0.25', '2.0']))
+            ctx['args'].update(['d_cacc', 'd_q1'])
         helpers = helpers or ctx['helpers']
         args = order_args(ctx['args'], loop)
         src.append('    def %s(self, %s):' % (m, ', '.join(args)))
         src += ['        ' + ln for ln in body]
         src.append('')
-    if helpers:
+    if conv and base is None:
+        thr = rng.choice(['0.5', '0.5', '1.5'])
+        src += ['    def reduce(self, dst, t, dt):',
+                '        dst.nsw[0] += 1.0',
+                '        dst.cacc[1] = dst.cacc[1]*%s + self.ca*dst.c0[0] + dst.cv[%d]'
+                % (rng.choice(['0.5', '1.0', '0.25']), rng.randrange(3)),
+                '        self.left = dst.nmax[0] - dst.nsw[0]', '',
+                '    def converged(self):',
+                '        if self.left > %s:' % thr,
+                '            return -1.0',
+                '        return 1.0', '']
+    if helpers or (base is not None and base[2]):
+        helpers = True
         src += ['    def _get_helpers_(self):',
                 '        return [c02_helper, c02_helper2]', '']
-    return '\n'.join(src)
+    return '\n'.join(src), meths, helpers
 
 
-def gen_module(rng, ncls, libm, ksyms, tag=None):
+def gen_module(rng, ncls, libm, ksyms, tag=None, inherit=False, conv=False):
     """module source + the class names; `tag` fixes the class NAMES (a second
-    module with the same tag re-defines the same names with other bodies)"""
+    module with the same tag re-defines the same names with other bodies).
+    `inherit`: classes after the first may subclass an earlier class of the
+    module, overriding only some methods; `conv`: the first class carries the
+    convergence hooks reduce / converged (its subclasses inherit them)"""
     parts = ['from math import sin, exp, sqrt, pow',
              'from compyle.api import declare',
              'from pysph.sph.equation import Equation', helper_src(rng)]
     classes = []
+    info = {}
     if tag is None:
         tag = '%06x' % rng.randrange(1 << 24)
     for k in range(ncls):
         nm = 'GenEq%s%s' % (tag, 'ABCDEFGH'[k])
-        parts.append(gen_class(rng, nm, libm, ksyms))
+        base = None
+        if inherit and k > 0 and (k == 1 or rng.random() < 0.6):
+            bn = classes[0] if k == 1 else rng.choice(classes)
+            base = (bn, info[bn][0], info[bn][1])
+        src, meths, helpers = gen_class(rng, nm, libm, ksyms, base,
+                                        conv and k == 0)
+        if base is not None:
+            helpers = helpers or base[2]
+        info[nm] = (meths, helpers)
+        parts.append(src)
         classes.append(nm)
     return '\n\n'.join(parts) + '\n', classes
 
@@ -575,6 +626,11 @@ def build_arrays(spec):
         for c in sorted(a.get('consts', {})):
             ln = a['consts'][c]
             pa.add_constant(c, [rng.uniform(0.5, 1.5) for _ in range(ln)])
+        for c in sorted(a.get('cdraw', {})):
+            # a constant whose value is one of the listed ones (per data seed)
+            pa.add_constant(c, [float(rng.choice(a['cdraw'][c]))])
+        for c in sorted(a.get('czero', {})):
+            pa.add_constant(c, [0.0] * a['czero'][c])
         for c in sorted(a.get('iconsts', {})):
             pa.add_constant(c, int(a['iconsts'][c]))        # a LongArray
         for p in sorted(a.get('ifirst', {})):
@@ -627,6 +683,9 @@ def group_kwargs(g, pas):
         kw['start_idx'] = g['start']
     if 'stop' in g:
         kw['stop_idx'] = g['stop']
+    if g.get('iter'):
+        kw.update(iterate=True, min_iterations=g['iter']['min'],
+                  max_iterations=g['iter']['max'])
     return kw
 
 
@@ -695,7 +754,7 @@ def call_method(eq, m, avail):
     return f(*[avail(a) for a in args])
 
 
-def py_execute(pas, groups, kernel, neighbours, t, dt):
+def py_execute(pas, groups, kernel, neighbours, t, dt, trace=None):
     """the documented meaning of a list of groups: a group runs iff ITS OWN
     condition(t, dt) holds (or it has none); ITS pre() is called before
     anything of the group, ITS post() after the group is completed; sub-groups
@@ -718,12 +777,41 @@ def py_execute(pas, groups, kernel, neighbours, t, dt):
             guarded(sg, lambda: with_pre_post(
                 sg, lambda: py_execute_leaf(pas, sg, kernel, neighbours, t, dt)))
 
+    def equations_of(g):
+        if g.has_subgroups:
+            return [e for sg in g.equations for e in equations_of(sg)]
+        return list(g.equations)
+
+    def iterated(g, body):
+        """Group docstring: `iterate`: "the group should continue iterating
+        until each equation's converged() methods returns with a positive
+        value", `max_iterations`: "the maximum number of times this group
+        should be iterated", `min_iterations`: the minimum number.  EVERY
+        equation of the group is asked after every sweep -- whichever class of
+        its hierarchy defines the method."""
+        if not g.iterate:
+            body()
+            return
+        count = 1
+        bits = []
+        while True:
+            body()
+            conv = [e.converged() > 0 for e in equations_of(g)]
+            bits.append(all(conv))
+            if count >= g.min_iterations and (all(conv) or count == g.max_iterations):
+                if trace is not None:
+                    trace.append((g.min_iterations, g.max_iterations, bits, count))
+                break
+            count += 1
+            if count > 10000:
+                raise RuntimeError('iterated group does not terminate')
+
     for g in groups:
         if g.has_subgroups:
-            guarded(g, lambda: with_pre_post(g, lambda: parent_body(g)))
+            guarded(g, lambda: iterated(g, lambda: with_pre_post(g, lambda: parent_body(g))))
         else:
-            guarded(g, lambda: with_pre_post(
-                g, lambda: py_execute_leaf(pas, g, kernel, neighbours, t, dt)))
+            guarded(g, lambda: iterated(g, lambda: with_pre_post(
+                g, lambda: py_execute_leaf(pas, g, kernel, neighbours, t, dt))))
 
 
 def first_value(pa, name):
@@ -1001,6 +1089,30 @@ def parse_generated(code):
                 t = t.replace(a, b)
             cur_s['pre'].append(t)
     return out
+
+
+_ITER_RE = re.compile(
+    r'max_iterations = (-?\d+)\s+min_iterations = (-?\d+)\s+_iteration_count = 1\s+while True:\n'
+    r'(.*?)\n\s*if \(\(_iteration_count >= min_iterations\)\s+and \((.*?) or '
+    r'\(_iteration_count == max_iterations\)\)\):\s+_iteration_count = 1\s+break\s+'
+    r'_iteration_count \+= 1\n', re.S)
+
+
+def parse_iterations(code):
+    """the iterated groups of the generated `compute`: [{'at': index of the
+    top-level group the loop stands in, 'max', 'min', 'cond': text of the
+    convergence factor of the break test}], and the number of `while True:`
+    lines (each must belong to one loop of the documented form)"""
+    body = code[code.index('cpdef compute'):]
+    heads = [m.start() for m in re.finditer(r'^\s*# Group (.+)\.$', body, re.M)
+             if not m.group(1).endswith(' done')]
+    its = []
+    for m in _ITER_RE.finditer(body):
+        at = sum(1 for h in heads if h < m.start()) - 1
+        inside = sum(1 for h in heads if m.start() < h < m.end())
+        its.append({'at': at, 'max': int(m.group(1)), 'min': int(m.group(2)),
+                    'cond': ' '.join(m.group(4).split()), 'spans': inside})
+    return its, len(re.findall(r'^\s*while True:\s*$', body, re.M))
 
 
 def parse_wrappers(code, names):
@@ -1495,6 +1607,59 @@ def analyse_program(spec, work, want_code=False):
                 if got != want:
                     res['fail'].append(('C02:wrapper-method', 'class %s has the method %s(%s) of the Python class' % (cls, m, ', '.join(want)),
                                         'none' if got is None else '%s(%s)' % (m, ', '.join(got))))
+    # ---- iterated groups -------------------------------------------------------
+    # model input: per iterated top-level group its equations (var_name, whether
+    # `converged` is in the __dict__ of the object's own class); extra driver
+    # lines, after the fixed ones
+    its, nwhile = parse_iterations(code)
+    res['extra'] = []
+    by_at = {}
+    for it in its:
+        by_at.setdefault(it['at'], []).append(it)
+    if nwhile != len(its):
+        res['fail'].append(('C02:iterated-group:break-test', 'every `while True:` of compute belongs to one '
+                            'iteration loop of the documented form', '%d `while True:` lines, %d loops' % (nwhile, len(its))))
+    for i, g in enumerate(top_groups):
+        subs = list(g.equations) if g.has_subgroups else [g]
+        eqs_g = [e for sg in subs for e in sg.equations]
+        mine_it = by_at.get(i, [])
+        if not g.iterate:
+            if mine_it:
+                res['fail'].append(('C02:iterated-group:break-test', 'group %d (iterate=False) runs once' % i,
+                                    'an iteration loop: %r' % mine_it))
+            continue
+        # property oracle (independent of the model): Group docstring -- the
+        # group is repeated "until each equation's converged() ... returns with a
+        # positive value", at least min_iterations, at most max_iterations times:
+        # the break test asks EVERY equation object of the group, each once,
+        # combined by `&` only, with the limits the user gave
+        want_vars = sorted(e.var_name for e in eqs_g)
+        what = ('group %d (iterate=True, min_iterations=%d, max_iterations=%d): one loop around the group '
+                'whose break test asks every equation of the group: %s' % (
+                    i, g.min_iterations, g.max_iterations,
+                    ' & '.join('(self.%s.converged() > 0)' % v for v in want_vars)))
+        if len(mine_it) != 1 or mine_it[0]['spans']:
+            res['fail'].append(('C02:iterated-group:break-test', what, 'loops found in the text of the group: %r' % mine_it))
+            continue
+        it = mine_it[0]
+        got_vars = re.findall(r'self\.(\w+)\.converged\(\)', it['cond'])
+        plain = ' & '.join('(self.%s.converged() > 0)' % v for v in got_vars)
+        if sorted(got_vars) != want_vars or it['cond'] != plain or \
+                (it['min'], it['max']) != (g.min_iterations, g.max_iterations):
+            missing = [('%s (%s%s)' % (e.var_name, type(e).__name__, '' if 'converged' in type(e).__dict__
+                                       else ', converged() inherited from %s' % next(
+                                           c.__name__ for c in type(e).__mro__ if 'converged' in c.__dict__)))
+                       for e in eqs_g if e.var_name not in got_vars]
+            res['fail'].append(('C02:iterated-group:break-test', what,
+                                'min_iterations = %d ; max_iterations = %d ; break test factor: %s%s' % (
+                                    it['min'], it['max'], it['cond'],
+                                    ' -- not asked: %s' % ', '.join(missing) if missing else '')))
+        res['lines'].append('iter kind=%s eqs=%s' % (
+            'parent' if g.has_subgroups else 'leaf',
+            ';'.join(','.join('%s:%d' % (e.var_name, 'converged' in type(e).__dict__)
+                              for e in sg.equations) or '_' for sg in subs)))
+        res['extra'].append(('break test of iterated group %d' % i,
+                             'polled=%s cond=%s' % (','.join(got_vars) or '_', it['cond'].replace(' ', '~'))))
     # one finding is reported once per class of input
     seen_f = set()
     res['fail'] = [f for f in res['fail'] if not (f in seen_f or seen_f.add(f))]
@@ -1548,6 +1713,7 @@ def run_program(arg):
         out['impl_limits'] = A['impl_limits']
         out['impl_wrappers'] = A['impl_wrappers']
         out['fail'] = A['fail']
+        out['extra'] = A['extra']
         if mode == 'codetext':
             out['code'] = A['code']
         out['nsyms'] = sorted({t for g in A['parse']['groups'] for db in g
@@ -1592,6 +1758,7 @@ def run_program(arg):
                     m.declare = _decl
                     out.setdefault('notes', []).append(
                         '%s calls declare() without importing it' % m.__name__)
+        sweep_trace = []
         try:
             ae.compute(spec['t'], spec['dt'])
         except Exception as e:   # noqa
@@ -1607,7 +1774,7 @@ def run_program(arg):
         try:
             with np.errstate(all='ignore'):
                 py_execute(pas_p, groups_p, get_kernel(spec), neighbours,
-                           spec['t'], spec['dt'])
+                           spec['t'], spec['dt'], sweep_trace)
         except NameError as e:
             # the method body names something its module never imports (it
             # only exists in the generated Cython): not executable as Python
@@ -1645,8 +1812,124 @@ def run_program(arg):
         for pa in pas:
             for di in range(min(3, pa.get_number_of_particles())):
                 nn += len(neighbours(pa.name, pa.name, di))
+        # ---- the history: further calls on the SAME evaluator ---------------
+        # The statement is about what a compute() leaves in the arrays the
+        # evaluator is evaluating: after update_particle_arrays(new arrays) those
+        # are the NEW arrays -- every property and constant of them equals the
+        # Python execution of the same (stateful) equation objects on the new
+        # arrays, and the arrays of before hold what the Python execution
+        # leaves in them (nothing changes there, except through the user's own
+        # pre / post callables which keep acting on the arrays they were
+        # written for).
+        cur, cur_p = pas, pas_p
+        retired = []
+        sets = [pas]
+
+        def observe_binding():
+            """per array name: [(attribute, index of the array set whose carray
+            the wrapper attribute IS)] for every property and constant"""
+            obs = {}
+            for j, pa in enumerate(sets[-1]):
+                w = getattr(ae.c_acceleration_eval, pa.name)
+                rows = []
+                for n in sorted(pa.properties.keys()) + sorted(pa.constants.keys()):
+                    held = getattr(w, n, None)
+                    k_ = next((i for i, ss in enumerate(sets)
+                               if held is ss[j].get_carray(n)), None)
+                    rows.append((n, k_))
+                obs[pa.name] = rows
+            return obs
+        for k, st in enumerate(spec.get('history') or []):
+            where = 'history step %d (%s)' % (k + 1, json.dumps(st, sort_keys=True))
+            if st['op'] == 'rebind':
+                spec2 = dict(spec, data_seed=st['data_seed'])
+                new, new_p = build_arrays(spec2), build_arrays(spec2)
+                retired.append((cur, cur_p))
+                try:
+                    ae.update_particle_arrays(new)
+                    nnps = LinkedListNNPS(dim=spec['dim'], particles=new,
+                                          radius_scale=kernel.radius_scale)
+                    nnps.update()
+                    ae.set_nnps(nnps)
+                except Exception as e:   # noqa
+                    out['fail'].append(('C02:history:raises', where + ': update_particle_arrays / set_nnps '
+                                        'accept arrays with the same properties', '%s: %s' % (type(e).__name__, e)))
+                    break
+                cur, cur_p = new, new_p
+                sets.append(new)
+                nnps_p = LinkedListNNPS(dim=spec['dim'], particles=cur_p,
+                                        radius_scale=kernel.radius_scale)
+                nnps_p.update()
+                # the generated compute takes its pointers from the wrapper
+                # attributes: each property AND constant must be the carray of
+                # the array just passed
+                stale = ['%s.%s -> %s' % (an, n, 'nothing' if k_ is None else
+                                          'array set %d' % k_)
+                         for an, rows in sorted(observe_binding().items())
+                         for n, k_ in rows if k_ != len(sets) - 1]
+                if stale:
+                    out['fail'].append((
+                        'C02:history:rebind:binding',
+                        where + ': every property and constant attribute of the array wrappers holds the '
+                        'carray of the array passed to update_particle_arrays (array set %d)' % (len(sets) - 1),
+                        ', '.join(stale[:8])))
+            try:
+                ae.compute(st['t'], spec['dt'])
+            except Exception as e:   # noqa
+                out['fail'].append(('C02:history:raises', where + ': compute(t, dt) returns',
+                                    '%s: %s' % (type(e).__name__, e)))
+                break
+            try:
+                with np.errstate(all='ignore'):
+                    py_execute(cur_p, groups_p, get_kernel(spec), neighbours, st['t'], spec['dt'],
+                               sweep_trace)
+            except (ZeroDivisionError, OverflowError, ValueError) as e:
+                out['inadmissible'] = '%s: %s' % (type(e).__name__, e)
+                break
+            nbad = len(out['fail'])
+            for role, pairs in (('evaluated', [(cur, cur_p)]), ('replaced', retired)):
+                for pcs, pps in pairs:
+                    for pc, pp in zip(pcs, pps):
+                        for coll in ('properties', 'constants'):
+                            for n in getattr(pc, coll):
+                                ok, why = ulp_close(pc.get_carray(n).get_npy_array(),
+                                                    pp.get_carray(n).get_npy_array(), tol)
+                                if why != 'exact':
+                                    exact_all = False
+                                if not ok:
+                                    out['fail'].append((
+                                        'C02:history:%s:%s-arrays:%s' % (
+                                            st['op'], role, coll),
+                                        '%s: %s %s of the %s %s equal to the Python execution of '
+                                        'the same history (tolerance %g)' % (
+                                            where, coll[:-1].replace('ie', 'y'), n,
+                                            'array being evaluated,' if role == 'evaluated' else
+                                            'array replaced by update_particle_arrays,',
+                                            pc.name, tol), why))
+            out['history_steps'] = k + 1
+            if len(out['fail']) > nbad:
+                break
         out['exact'] = exact_all
         out['nbrs_sampled'] = nn
+        # model ties of the history: the wrapper binding after the last step,
+        # the sweeps of the documented loop on the observed convergence bits
+        if len(sets) > 1:
+            ob = observe_binding()
+            for j, pa in enumerate(sets[-1]):
+                out['lines'].append('binding names=%s %s' % (
+                    ','.join(n for n, _ in ob[pa.name]),
+                    ' '.join('A id=%d props=%s consts=%s' % (
+                        i, ','.join(sorted(ss[j].properties.keys())) or '_',
+                        ','.join(sorted(ss[j].constants.keys())) or '_')
+                        for i, ss in enumerate(sets))))
+                out['extra'].append(('wrapper binding after update_particle_arrays of array %s' % pa.name,
+                                     ','.join('%s:%s' % (n, '-' if k_ is None else k_)
+                                              for n, k_ in ob[pa.name])))
+        for mn_, mx_, bits, cnt in sweep_trace[:8]:
+            if mx_ >= 1 and 0 <= mn_ <= mx_:
+                out['lines'].append('sweeps min=%d max=%d conv=%s' % (
+                    mn_, mx_, ''.join('1' if b else '0' for b in bits) or '_'))
+                out['extra'].append(('sweeps of the documented loop', '%d' % cnt))
     except BaseException as e:   # noqa  (compyle exits on a compile error)
         out['ok'] = False
         out['err'] = '%s: %s\n%s' % (type(e).__name__, e,
@@ -1816,18 +2099,91 @@ def gen_groups(rng, gen, names, arrays, dim, t, groups_mode=None, mixed=False):
     groups, groups_mode = decorate_groups(rng, groups, names, t, groups_mode)
     for g in leaf_specs(groups):
         gen_limits(rng, g, arrays, dim)
+    if gen.get('conv') or gen.get('inherit'):
+        gen_iterations(rng, groups, gen)
     return groups, groups_mode
 
 
+def class_bases(src):
+    """{class: base class} of a generated module"""
+    return dict(re.findall(r'^class (\w+)\((\w+)\):', src or '', re.M))
+
+
+def converged_kind(bases, conv_class, c):
+    """where the converged() of class c comes from: 'own' (its class body),
+    'inherited' (a base equation class of the module), 'default' (Equation)"""
+    if conv_class is None:
+        return 'default'
+    if c == conv_class:
+        return 'own'
+    b = bases.get(c)
+    while b is not None and b != 'Equation':
+        if b == conv_class:
+            return 'inherited'
+        b = bases.get(b)
+    return 'default'
+
+
+def gen_iterations(rng, groups, gen):
+    """Group(iterate=True, min_iterations=, max_iterations=) on top-level groups
+    (groups of equations and parents of sub-groups): the number of sweeps is
+    decided by the equations' converged() -- defined in the class itself, or
+    INHERITED from a base equation class, or the default of Equation -- within
+    [min_iterations, max_iterations]: convergence before, at and after either
+    bound occurs (`nmax` of the destination is 1..4).  The group's own pre /
+    post stay: equations.rst, "If the group is iterated, it should call those
+    functions repeatedly" -- they belong to every sweep."""
+    picked = False
+    kinds = {c: converged_kind(gen.get('bases', {}), gen['names'][0] if gen.get('conv') else None, c)
+             for c in gen['names']}
+    inh = [c for c in gen['names'] if kinds[c] == 'inherited']
+    dflt = [c for c in gen['names'] if kinds[c] == 'default']
+    leaves = [g for g in groups if 'eqs' in g]
+    if inh and leaves and rng.random() < 0.75:
+        # ONE equation decides the number of sweeps, and it is one that inherits
+        # converged(): beside it only equations with the default converged()
+        g = rng.choice(leaves)
+        first = g['eqs'][0]
+        first['cls'] = 'gen:' + rng.choice(inh)
+        first['kw'] = inst_kw(rng, gen['types'][first['cls'].split(':')[1]])
+        rest = []
+        for e in g['eqs'][1:]:
+            if dflt:
+                e['cls'] = 'gen:' + rng.choice(dflt)
+                e['kw'] = inst_kw(rng, gen['types'][e['cls'].split(':')[1]])
+                rest.append(e)
+        g['eqs'] = [first] + rest
+        rng.shuffle(g['eqs'])
+        g['iter'] = {'min': rng.choice([0, 1, 1, 2]), 'max': rng.choice([5, 6])}
+        picked = True
+    for g in groups:
+        if 'iter' not in g and rng.random() < 0.5:
+            lo = rng.choice([0, 1, 1, 2, 3])
+            g['iter'] = {'min': lo, 'max': max(lo, rng.choice([1, 2, 3, 5, 6]))}
+            picked = True
+    if not picked:
+        g = rng.choice(groups)
+        g['iter'] = {'min': rng.choice([0, 1, 2]), 'max': rng.choice([3, 5, 6])}
+
+
 def gen_program(rng, compile_=True, big=False, groups_mode=None, small=False,
-                mixed=False, bias=None):
-    """a program of generated equation classes in the documented subset"""
+                mixed=False, bias=None, hier=None):
+    """a program of generated equation classes in the documented subset;
+    `hier` = (inherit, conv): class hierarchies / convergence hooks and
+    iterated groups (drawn when None)"""
     libm = rng.random() < (0.2 if small else 0.35)
     ks = rng.random() < (0.4 if small else 0.6)
+    if hier is None:
+        hier = rng.choice([(False, False), (False, False), (True, True),
+                           (True, True), (True, False), (False, True)])
+    inherit, conv = hier
     ncls = rng.choice([1, 2, 2] if small else [2, 3, 3, 4])
+    if inherit:
+        ncls = max(ncls, 2)
     tag = '%06x' % rng.randrange(1 << 24)
-    src, cnames = gen_module(rng, ncls, libm, ks, tag)
+    src, cnames = gen_module(rng, ncls, libm, ks, tag, inherit, conv)
     gen = {'tag': tag, 'ncls': ncls, 'libm': libm, 'ks': ks, 'names': cnames,
+           'inherit': inherit, 'conv': conv, 'bases': class_bases(src),
            'types': {c: gen_attr_types(rng, bias) for c in cnames}}
     dim = rng.choice([1, 2, 2, 3])
     narr = rng.choice([1, 2, 2, 3 if big else 2])
@@ -1835,13 +2191,14 @@ def gen_program(rng, compile_=True, big=False, groups_mode=None, small=False,
     n = {1: 14, 2: 30, 3: 40}[dim]
     arrays = [{'name': nm, 'n': n + rng.randrange(0, 8), 'props': full_props(),
                'consts': {'c0': 1, 'cv': 3},
+               'cdraw': {'nmax': [1.0, 2.0, 3.0, 4.0]}, 'czero': {'nsw': 1, 'cacc': 2},
                'nghost': rng.choice([0, 0, 2, 4])} for nm in names]
     gen_limit_values(rng, arrays, dim)
     if small and groups_mode is None:
         groups_mode = rng.choice(['plain', 'plain', 'callables', 'shared-names'])
     t = rng.choice([0.0, 0.3, 1.5])
     groups, groups_mode = gen_groups(rng, gen, names, arrays, dim, t, groups_mode, mixed)
-    return {'label': 'instances-differ-in-attribute-type' if mixed else
+    spec = {'label': 'instances-differ-in-attribute-type' if mixed else
             'generated' + ('-libm' if libm else '-arith') + ('-kernel' if ks else ''),
             'groups_mode': groups_mode, 'gen': gen,
             'mod': src, 'arrays': arrays, 'groups': groups,
@@ -1849,6 +2206,28 @@ def gen_program(rng, compile_=True, big=False, groups_mode=None, small=False,
             't': t, 'dt': rng.choice([0.01, 1e-4]),
             'data_seed': rng.randrange(1 << 30), 'compile': compile_,
             'tol': 1e-12 if (libm or ks) else 0.0}
+    if compile_ and not mixed:
+        spec['history'] = gen_history(rng, spec)
+    return spec
+
+
+def gen_history(rng, spec):
+    """what happens to the evaluator AFTER its first compute(t, dt): further
+    calls on the same object -- compute again (state kept by the equation
+    objects and by the arrays), update_particle_arrays with NEW ParticleArray
+    objects of the same names / properties / constants (other particle data,
+    other values of the constants, other ghosts) followed by compute.  Every
+    history has at least one re-binding."""
+    other_t = [x for x in (0.0, 0.3, 1.5) if x != spec['t']]
+    steps = []
+    if rng.random() < 0.35:
+        steps.append({'op': 'compute', 't': rng.choice(other_t + [spec['t']])})
+    steps.append({'op': 'rebind', 'data_seed': rng.randrange(1 << 30),
+                  't': rng.choice(other_t + [spec['t']] * 2)})
+    if rng.random() < 0.25:
+        steps.append({'op': 'rebind', 'data_seed': rng.randrange(1 << 30),
+                      't': rng.choice(other_t)})
+    return steps
 
 
 # --- sessions: several evaluators, one after the other, in ONE process ----------
@@ -1882,7 +2261,9 @@ def mutate(rng, spec, kind):
         # the same class NAMES with other method bodies (an interactive
         # session, two scripts that both define `class Source`)
         s['mod'], _ = gen_module(random.Random(rng.randrange(1 << 30)), gen['ncls'],
-                                 gen['libm'], gen['ks'], gen['tag'])
+                                 gen['libm'], gen['ks'], gen['tag'],
+                                 gen.get('inherit', False), gen.get('conv', False))
+        gen['bases'] = class_bases(s['mod'])
     elif kind == 'retype-arrays':
         # the same property names with another carray type
         old = s['arrays'][0]['props']['ic']['type']
@@ -1910,14 +2291,16 @@ def mutate(rng, spec, kind):
         raise AssertionError(kind)
     s['data_seed'] = rng.randrange(1 << 30)
     s['mut'] = kind
+    if s.get('history'):
+        s['history'] = gen_history(rng, s)
     return s
 
 
-def gen_session(rng, compile_, length, must=()):
+def gen_session(rng, compile_, length, must=(), hier=None):
     """[program, mutation of it, mutation of that, ...]; `must`: mutation kinds
     that have to occur (the first members), the rest is drawn"""
     base = gen_program(rng, compile_=compile_, big=not compile_, small=compile_,
-                       bias='narrow')
+                       bias='narrow', hier=hier)
     base['mut'] = 'first'
     kinds = list(must) + [rng.choice(MUTATIONS) for _ in range(length)]
     members = [base]
@@ -2331,8 +2714,13 @@ def collect(R, results, tag):
         mine = out[pos:pos + len(r['lines'])]
         pos += len(r['lines'])
         ng = r['ng']
-        if len(mine) != 2 * ng + 3:
+        extra = r.get('extra') or []
+        if len(mine) != 2 * ng + 3 + len(extra):
             raise SystemExit('driver answered %d lines for a program of %d groups' % (len(mine), ng))
+        for (what_, impl_), model_ in zip(extra, mine[2 * ng + 3:]):
+            if impl_ != model_:
+                R.disagree({'label': spec.get('label'), 'case': case}, model_, impl_, what_)
+            R.count('%s:tie:%s' % (tag, what_.split(' of ')[0].split(' after ')[0]))
         if mine[ng + 1] != r['impl_sites']:
             R.disagree({'label': spec.get('label'), 'case': case}, mine[ng + 1],
                        r['impl_sites'], 'call sites of condition/pre/post '
@@ -2435,6 +2823,38 @@ def group_feature_classes(spec):
             out.append('group-names:shared:conditions-of-different-outcome')
         if sum(1 for _, g in members if any(g.get(k) for k in ('cond', 'pre', 'post'))) >= 2:
             out.append('group-names:shared:own-callables')
+    # class hierarchies, convergence hooks, iterated groups, histories
+    mod = spec.get('mod') or ''
+    bases = dict(re.findall(r'^class (\w+)\((\w+)\):', mod, re.M))
+    own_conv = set(re.findall(r'^class (\w+)\(\w+\):(?:\n(?!class ).*)*?\n    def converged\(', mod, re.M))
+
+    def conv_kind(c):
+        if c in own_conv:
+            return 'own'
+        b = bases.get(c)
+        while b is not None and b != 'Equation':
+            if b in own_conv:
+                return 'inherited'
+            b = bases.get(b)
+        return 'default'
+    for _, g in nodes:
+        for e in g.get('eqs', []):
+            c = e['cls'].split(':')[1]
+            if bases.get(c, 'Equation') != 'Equation':
+                out.append('class:subclass-of-a-generated-equation')
+    for pos, g in nodes:
+        if not g.get('iter'):
+            continue
+        out.append('iterated-group:%s' % ('parent-of-sub-groups' if 'subs' in g else 'of-equations'))
+        kinds = {conv_kind(e['cls'].split(':')[1]) for sg in (g.get('subs') or [g])
+                 for e in sg['eqs'] if e['cls'].startswith('gen:')}
+        for k_ in kinds:
+            out.append('iterated-group:converged():%s' % k_)
+        if g['iter']['min'] > 1:
+            out.append('iterated-group:min_iterations>1')
+    for st in spec.get('history') or []:
+        out.append('history:%s' % {'rebind': 'update_particle_arrays+compute',
+                                   'compute': 'compute-again'}[st['op']])
     # loop limits
     sizes = {a['name']: array_sizes(a, spec['dim']) for a in spec['arrays']}
     for _, g in nodes:
@@ -2791,7 +3211,67 @@ def corpus_specs():
     differ_groups = [
         {'real': True, 'eqs': [addto('fluid', 0.5), addto('solid', 3)]},
         {'real': True, 'eqs': [addto('fluid', 0.25), addto('solid', 1)]}]
-    return [{'label': 'corpus-src-dst', 'mod': src, 'arrays': arrays,
+    # (minimised from a seeded defect) an iterated group whose only equation
+    # INHERITS reduce / converged from a base equation class and specialises
+    # the loop: the group is swept until the inherited converged() is positive
+    # (nmax sweeps), within [min_iterations, max_iterations]; the base class
+    # itself in a second iterated group, cut by max_iterations.  Arithmetic only.
+    src3 = '\n\n'.join([
+        'from pysph.sph.equation import Equation',
+        'class C02CorpusRelax(Equation):\n'
+        '    def __init__(self, dest, sources, ca=1.0):\n'
+        '        self.ca = ca\n'
+        '        self.left = 1.0\n'
+        '        super(C02CorpusRelax, self).__init__(dest, sources)\n\n'
+        '    def initialize(self, d_idx, d_q0):\n'
+        '        d_q0[d_idx] = 0.0\n\n'
+        '    def loop(self, d_idx, s_idx, d_q0, s_m, s_q1):\n'
+        '        d_q0[d_idx] += s_m[s_idx]*s_q1[s_idx]\n\n'
+        '    def post_loop(self, d_idx, d_q0, d_q1, d_cacc):\n'
+        '        d_q1[d_idx] = 0.5*d_q1[d_idx] + self.ca*d_q0[d_idx]\n'
+        '        d_cacc[0] += d_q1[d_idx]\n\n'
+        '    def reduce(self, dst, t, dt):\n'
+        '        dst.nsw[0] += 1.0\n'
+        '        dst.cacc[1] = dst.cacc[1]*0.5 + dst.c0[0]\n'
+        '        self.left = dst.nmax[0] - dst.nsw[0]\n\n'
+        '    def converged(self):\n'
+        '        if self.left > 0.5:\n'
+        '            return -1.0\n'
+        '        return 1.0\n',
+        'class C02CorpusRelaxWeighted(C02CorpusRelax):\n'
+        '    def loop(self, d_idx, s_idx, d_q0, s_m, s_rho, s_q1):\n'
+        '        d_q0[d_idx] += s_m[s_idx]/s_rho[s_idx]*s_q1[s_idx]\n']) + '\n'
+    conv_arrays = [dict(a, cdraw={'nmax': [3.0, 4.0]}, czero={'nsw': 1, 'cacc': 2})
+                   for a in arrays]
+    conv_groups = [
+        {'real': True, 'iter': {'min': 1, 'max': 6}, 'eqs': [
+            {'cls': 'gen:C02CorpusRelaxWeighted', 'dest': 'fluid', 'sources': ['fluid', 'solid'],
+             'kw': {'ca': 0.25}}]},
+        {'real': True, 'iter': {'min': 0, 'max': 2}, 'eqs': [
+            {'cls': 'gen:C02CorpusRelax', 'dest': 'solid', 'sources': ['fluid'], 'kw': {'ca': 0.5}}]}]
+    # (minimised from a seeded defect) one evaluator, then update_particle_arrays
+    # with NEW arrays (other data, other values of the constants c0 / cv / nmax)
+    # and compute again: constants read in loop / initialize_pair / reduce and
+    # written in post_loop / reduce are those of the arrays being evaluated
+    rebind_groups = [
+        {'real': True, 'eqs': [
+            {'cls': 'gen:C02CorpusRelax', 'dest': 'fluid', 'sources': ['fluid', 'solid'],
+             'kw': {'ca': 2.0}},
+            {'cls': 'gen:C02CorpusRelaxWeighted', 'dest': 'solid', 'sources': ['fluid'],
+             'kw': {'ca': 0.5}}]}]
+    return [{'label': 'corpus-iterated-group-inherited-converged', 'groups_mode': 'plain',
+             'mod': src3, 'arrays': conv_arrays, 'groups': conv_groups,
+             'kernel': 'CubicSpline', 'dim': 2, 't': 0.0, 'dt': 0.01, 'data_seed': 19,
+             'compile': True, 'tol': 0.0,
+             'history': [{'op': 'compute', 't': 0.0}]},
+            {'label': 'corpus-update-particle-arrays', 'groups_mode': 'plain',
+             'mod': src3, 'arrays': conv_arrays, 'groups': rebind_groups,
+             'kernel': 'CubicSpline', 'dim': 2, 't': 0.0, 'dt': 0.01, 'data_seed': 23,
+             'compile': True, 'tol': 0.0,
+             'history': [{'op': 'rebind', 'data_seed': 29, 't': 0.0},
+                         {'op': 'compute', 't': 0.3},
+                         {'op': 'rebind', 'data_seed': 31, 't': 0.0}]},
+            {'label': 'corpus-src-dst', 'mod': src, 'arrays': arrays,
              'groups': [{'real': True, 'eqs': [
                  {'cls': 'gen:C02CorpusA', 'dest': 'fluid', 'sources': ['solid'], 'kw': {}},
                  {'cls': 'gen:C02CorpusA', 'dest': 'solid', 'sources': ['fluid', 'solid'], 'kw': {}}]}],
@@ -2965,15 +3445,18 @@ def main():
              ('relimit', 'retype-attrs'), ('retype-arrays', 'rewire'), ('rewire', 'redefine-classes')]
     c_sessions = list(corpus_sessions())
     for k in range(3 if quick else 12):
-        c_sessions.append(gen_session(rng, True, 4, musts[k % len(musts)]))
+        c_sessions.append(gen_session(rng, True, 4, musts[k % len(musts)],
+                                      hier=(True, True) if k % 3 == 0 else None))
     nsess_procs = min(len(c_sessions), 5 if quick else 6)
     cj = Jobs(work, nsess_procs)
     c_ids = [cj.submit(ss, 'full') for ss in c_sessions]
     cj.pump()
     compiled = list(corpus_specs())
     ngen = 7 if quick else 60
+    # every 3rd program: class hierarchies with inherited convergence hooks
     compiled += [gen_program(rng, compile_=True,
-                             groups_mode='shared-names' if k % 6 == 1 else None)
+                             groups_mode='shared-names' if k % 6 == 1 else None,
+                             hier=(True, True) if k % 3 == 0 else None)
                  for k in range(ngen)]
     pool = list(shipped)
     rng.shuffle(pool)
@@ -3027,7 +3510,8 @@ def main():
         extra = []
         for k in range(12):
             s = gen_program(rng2, compile_=True,
-                            groups_mode='shared-names' if k % 3 == 1 else None)
+                            groups_mode='shared-names' if k % 3 == 1 else None,
+                            hier=(True, True) if k % 2 == 0 else None)
             extra.append(s)
         for k in range(4):
             extra.append(shipped_program(rng2, distinct_names(pool[k * 2:(k + 1) * 2] or pool[:2])))
